@@ -248,8 +248,15 @@ class ModuleGen(object):
                                                    "__name__ not in ('__main__',)"]))
                 self.func('    ', 'nm%d' % k, 'nm%d' % k, True)
             elif kind == 'main':
-                out.append('if __name__ == %s:' % rng.choice(["'__main__'", '"__main__"']))
+                # the guard written either way around; sometimes with an else branch, whose definitions the module
+                # does make on import (finding F31)
+                out.append('if %s:' % rng.choice(["__name__ == '__main__'", '__name__ == "__main__"',
+                                                   "'__main__' == __name__"]))
                 self.func('    ', 'm%d' % k, 'm%d' % k, False, forbid='code under the __main__ guard')
+                if rng.random() < 0.3:
+                    out.append('else:')
+                    self.func('    ', 'me%d' % k, 'me%d' % k, True)
+                    self.spec.features.add('main-guard-else')
             elif kind == 'class':
                 self.klass(k)
         if rng.random() < 0.25:
